@@ -61,6 +61,14 @@ def trimSpace (bs : List Nat) : List Nat :=
   let l := stripWith spaceAtHead bs.length bs
   (stripWith spaceAtEndRev l.length l.reverse).reverse
 
+/-! ## strings.ToLower on ASCII text -/
+
+def isASCII (bs : List Nat) : Bool := bs.all (· < 128)
+
+/-- `strings.ToLower` on an ASCII string (Go's fast path: `A`–`Z` + 32). Non-ASCII text goes through
+    the Unicode tables and stays a parameter of the model. -/
+def lowerASCII (bs : List Nat) : List Nat := bs.map (fun b => if 65 ≤ b ∧ b ≤ 90 then b + 32 else b)
+
 /-! ## digits -/
 
 /-- The value of an ASCII digit of `base` (10 or 16; letters in both cases), as `strconv` and
